@@ -304,6 +304,39 @@ fn build(tier: Tier) -> Box<dyn Check> {
     Box::new(C06 { m: build_model(tier.pick(4, 5)) })
 }
 
+/// every value of the universe used as a subscript of every kind of container, for reading, writing,
+/// rock, roll and copy (the reference decides which cells are determined; writes far beyond the end are
+/// outside the resource bounds and skipped)
+pub fn key_programs() -> &'static Vec<String> {
+    static CACHE: std::sync::OnceLock<Vec<String>> = std::sync::OnceLock::new();
+    CACHE.get_or_init(build_key_programs)
+}
+
+fn build_key_programs() -> Vec<String> {
+    use super::universe::{ctor, U};
+    const CONTAINERS: &[&str] = &["rock w with 4, 5, 6\n", "rock w with 4\nlet w at \"k\" be 1\nlet w at true be 2\n", "put \"abc\" into w\n", "put \"é😀z\" into w\n", "rock w\n", "put 5 into w\n", "put mysterious into w\n"];
+    const OPS: &[&str] = &[
+        "say w at y\n",
+        "say w at y at 0\n",
+        "put w at y into z\nsay z\n",
+        "let w at y be 9\nsay w\nsay w at y\nsay w at 0\n",
+        "let w at 0 at y be 9\nsay w at 0 at y\n",
+        "rock w at y with 8\nsay w at y\n",
+        "roll w at y\n",
+        "put w into v\nlet v at y be 9\nsay w at y\nsay v at y\nsay w\n",
+        "say w at y is w at y\n",
+    ];
+    let mut v = Vec::new();
+    for c in CONTAINERS {
+        for k in 0..U.len() {
+            for o in OPS {
+                v.push(format!("{}{}{}", c, ctor(k, "y"), o));
+            }
+        }
+    }
+    v
+}
+
 impl C06 {
     fn history(&self, si: u32) -> Vec<u16> {
         let mut h = Vec::new();
@@ -335,18 +368,21 @@ impl C06 {
 
 impl Check for C06 {
     fn families(&self) -> Vec<(String, u64)> {
-        vec![("transitions".into(), self.m.transitions.len() as u64), ("thresholds".into(), super::scale::programs().len() as u64)]
+        vec![("transitions".into(), self.m.transitions.len() as u64), ("thresholds".into(), super::scale::programs().len() as u64), ("every value as subscript".into(), key_programs().len() as u64)]
     }
     fn describe(&self, fam: usize, idx: u64) -> Value {
         if fam == 1 {
             return json!({"text": super::scale::programs()[idx as usize]});
         }
+        if fam == 2 {
+            return json!({"text": key_programs()[idx as usize]});
+        }
         let (text, trace) = self.program(idx);
         json!({"text": text, "history": trace})
     }
     fn run_case(&self, fam: usize, idx: u64, ctx: &mut Ctx) {
-        if fam == 1 {
-            let text = super::scale::programs()[idx as usize].clone();
+        if fam >= 1 {
+            let text = if fam == 1 { super::scale::programs()[idx as usize].clone() } else { key_programs()[idx as usize].clone() };
             ctx.case_text(&text);
             let opts = JudgeOpts { limits: Limits { steps: 400_000, depth: 150 }, ..Default::default() };
             if let (Judged::Agree | Judged::Violation, _) = judge(&text, b"", &opts, ctx) {
